@@ -8,6 +8,7 @@ use crate::report::Report;
 use std::time::Duration;
 
 fn scripts(n: usize, thorough: bool) -> Vec<(&'static str, Vec<StreamSpec>)> {
+    #[allow(unused_mut)]
     let mut v = vec![
         (
             "bursts both ways, slow concurrent readers",
@@ -28,6 +29,26 @@ fn scripts(n: usize, thorough: bool) -> Vec<(&'static str, Vec<StreamSpec>)> {
             }],
         ),
     ];
+    // zero-length writes in between: they must neither transmit nor take credit
+    let mut mixed = Vec::new();
+    for i in 0..n {
+        mixed.push(Op::W(1));
+        if i % 2 == 0 {
+            mixed.push(Op::W(0));
+        } else {
+            mixed.push(Op::WV(vec![0, 0]));
+        }
+    }
+    mixed.push(Op::Shutdown);
+    v.push((
+        "burst interleaved with zero-length writes",
+        vec![StreamSpec {
+            tag: 1,
+            opener: 0,
+            opener_plan: EndPlan::Split(mixed.clone(), vec![Op::ReadToEof(1)]),
+            acceptor_plan: EndPlan::Split(vec![Op::W(0), Op::W(1), Op::WV(vec![]), Op::Shutdown], vec![Op::ReadToEof(1)]),
+        }],
+    ));
     if thorough {
         v.push((
             "two streams sharing the connection, vectored writes",
